@@ -144,6 +144,10 @@ type Transport struct {
 	autoDecodeContentType func(contentType string) bool
 	wrappedRoundTrip      http.RoundTripper
 	httpRoundTripWrappers []HttpRoundTripWrapper
+
+	// reinstallTLSFingerprint, if non-nil, installs the TLS fingerprint handshake
+	// of this Transport (SetTLSFingerprint) on a clone.
+	reinstallTLSFingerprint func(tt *Transport)
 }
 
 // NewTransport is an alias of T
@@ -500,6 +504,7 @@ func (t *Transport) SetDialTLS(fn func(ctx context.Context, network, addr string
 // used to customize the tls fingerprint.
 func (t *Transport) SetTLSHandshake(fn func(ctx context.Context, addr string, plainConn net.Conn) (conn net.Conn, tlsState *tls.ConnectionState, err error)) *Transport {
 	t.TLSHandshakeContext = fn
+	t.reinstallTLSFingerprint = nil
 	return t
 }
 
@@ -785,6 +790,9 @@ func (t *Transport) Clone() *Transport {
 	}
 	if t.t3 != nil {
 		tt.EnableHTTP3()
+	}
+	if t.reinstallTLSFingerprint != nil {
+		t.reinstallTLSFingerprint(tt)
 	}
 	return tt
 }
